@@ -22,14 +22,18 @@ CONTRACTS = {
     "F5": {"mult": 5, "cashreq": 0, "mr": F(1, 4)},
     "G1": {"mult": 1, "cashreq": 0, "mr": F(1, 2)},
     "H2": {"mult": 2, "cashreq": 0, "mr": F(1)},
+    "F4": {"mult": 4, "cashreq": 0, "mr": F(1, 4)},
+    "S2": {"mult": 2, "cashreq": 1, "mr": F(0)},
 }
 
-FEES = {"free": (F(0), F(0)), "paid": (F(1), F(1, 100))}
+# "dy": a dyadic schedule for the exact-rational rebalancing models (denominators stay powers of two,
+# so that TLC's 32-bit integers are not exceeded)
+FEES = {"free": (F(0), F(0)), "paid": (F(1), F(1, 100)), "dy": (F(1), F(1, 16))}
 
 
 def model(name, contracts, ops, depth, fees="paid", bids=(8, 12), spreads=(0, 2), dqs=(-2, -1, 1, 2),
           lots=(), reqs=(), steps=(1,), rate=F(0), markup=F(0), deposit=F(1000),
-          refrule="carry", spotmult="applied", sublot="skip", invariants=(), properties=()):
+          refrule="carry", spotmult="applied", sublot="skip", invariants=(), properties=(), dyadic=False, maxrebal=99):
     cs = {c: CONTRACTS[c] for c in contracts}
     fixed, prop = FEES[fees]
     defs = {
@@ -44,13 +48,13 @@ def model(name, contracts, ops, depth, fees="paid", bids=(8, 12), spreads=(0, 2)
     # sets of functions / records need raw rendering (dicts are not hashable)
     defs["LotTargets"] = tlagen.Raw("{" + ", ".join(tlagen.tla(dict(t)) for t in lots) + "}")
     defs["Reqs"] = tlagen.Raw("{" + ", ".join(tlagen.tla(r) for r in reqs) + "}")
-    plain = {"RefRule": refrule, "SpotMult": spotmult, "SubLot": sublot, "MaxDepth": depth}
+    plain = {"RefRule": refrule, "SpotMult": spotmult, "SubLot": sublot, "MaxDepth": depth, "MaxRebal": maxrebal}
     return {
         "name": name,
         "module": tlagen.mc_module("MC", "Broker", defs),
         "cfg": tlagen.cfg(defs, plain, invariants=invariants, properties=properties, view="view"),
         "py": {"contracts": cs, "fixed": fixed, "prop": prop, "deposit": deposit, "rate": rate,
-               "markup": markup},
+               "markup": markup, "dyadic": dyadic},
         "invariants": list(invariants), "properties": list(properties),
     }
 
